@@ -143,4 +143,13 @@ def run(c):
             for r in range(12): lines.append('asm.abi fn=%s r=%d data=%s' % (fn, r, hx(s)))
         p.case(lines, cost=3.0); c.distinct([('x86-64', i)])
     c.tv(p, 'rel', 'abi', max_cost=12.0)
+    # the x86-64 masked-word / masked-permutation assembly in the share configurations that change
+    # its conditional code (MAX_SHARES 3 and 2): values by the specification, canaries around every object
+    import c10
+    class Sub:
+        def __init__(s, c): s.rng = c.rng; s.tier = 'quick'; s.cov = {}
+        def distinct(s, items): pass
+    for fl, ms in (('ks3+ds3+ms3', 3), ('ks2+ds2+ms2', 2)):
+        q = Plan(); c10.toolkit(Sub(c), q, ms, False)
+        c.tv(q, fl, 'maskedasm', max_cost=15.0)
     c.cov['rule'] = '18 generator/file pairs; (architecture, starting round, state) executions on x86-64 (4 entry points), i386, AVR5 (+ interpreted architectures); ELF objects; distinct = those tuples'
